@@ -466,7 +466,7 @@ def eval_history(seq, refs):
     norm = lambda x: json.loads(json.dumps(x))
     for pos, (i, (got, fp)) in enumerate(zip(seq, res)):
         if norm(got) != norm(refs[str(i)] if str(i) in refs else refs[i]):
-            out.append(("result-depends-on-previously-analysed-files", {"item": "file" if i < len(pool()) else ("scan" if i == len(pool()) else "check")},
+            out.append(("result-depends-on-previously-analysed-files", {"item": "file" if i < len(pool()) else ["scan", "check", "scan-latin1-tree", "scan-utf8-tree"][i - len(pool())]},
                         f"step {pos} (item {i}) after {seq[:pos]}: {str(got)[:200]} vs fresh-process {str(refs.get(i, refs.get(str(i))))[:200]}"))
             break
     fps = [fp for _, fp in res]
